@@ -14,7 +14,7 @@ from . import common as C
 PROP = "C01"; LEVEL = "other"; P_TIER = True
 OPS = ["size", "count", "sum", "mean", "min", "max", "first", "last"]
 SCOPE = {"quick": "keys over {null,a,b,c} of kinds float/str/int/categorical/two-key, n<=3 exhaustive (n=4 for float keys x float values) x value classes {float,int,datetime,timedelta,bool} x every value-null pattern x masks {none, every boolean, slices incl. negative bounds, positions incl. repeats} x sort on/off x 8 reductions; seeded random cases up to 24 rows",
-         "thorough": "as quick with n<=4 for every kind (n<=5 float/float), random cases up to 64 rows"}
+         "thorough": "as quick with n<=4 for every kind (n<=5 float/float), random cases up to 64 rows; designed cases with 2/3/4 worker threads forced (groups absent or all-null in the first blocks)"}
 RULE = "a case = (keys, key kind, value class, value-null pattern, mask, sort); distinct = distinct canonical JSON; non-trivial = at least two labels, or a null key, or a mask, or a null value"
 ASSUMPTIONS = ["pandas Series/Index/MultiIndex construction and sorting behave as documented", "numpy boolean/slice/fancy indexing",
                "A-real: float sums compared with relative tolerance 1e-9; A-int64 (sums of 64-bit values do not overflow)",
@@ -64,6 +64,23 @@ def cases(tier, seed):
     return C.roundrobin(*streams)
 
 
+def extra_cases(tier, seed):
+    """designed cases, run before the enumeration: the multi-threaded dispatch of the public reductions (block-wise partial results merged per group). The number of worker
+    threads is a function of the row count (1 + rows // 1e6, at most 4); the harness reaches it at small sizes by overriding the read-only property GroupBy._max_threads_for_numba
+    from outside for the duration of one call (no source change) - the merged result must still be the per-group definition, in particular for groups that have no row, or only
+    null values, in the first block(s)."""
+    seqs = [[0, 0, 0, 1, 1, 2], [2, 2, 1, 1, 0, 0, 0], [0, 0, 0, 0, 1, 2, 1, 2], [None, 0, 0, 1, None, 1, 2, 2, 2], [1, 1, 1, 1, 1, 1, 0]]
+    for keys in seqs:
+        n = len(keys)
+        for vkind in ("float", "int", "datetime", "bool", "timedelta"):
+            pats = [[False] * n, [i < n // 2 for i in range(n)], [i % 2 == 0 for i in range(n)]] if vkind != "bool" else [[False] * n]
+            for pat in pats:
+                for mask in (None, ("bool", [i != 1 for i in range(n)]), ("bool", [i >= n // 2 for i in range(n)])):
+                    for threads in (2, 3, 4):
+                        for kkind in (("float", "two") if threads == 2 else ("float",)):
+                            yield {"keys": keys, "kkind": kkind, "vkind": vkind, "nullpat": pat, "mask": mask, "sort": True, "threads": threads}
+
+
 def random_case(rnd, tier):
     n = rnd.randint(5, 64 if tier == "thorough" else 24)
     return {"keys": [rnd.choice([None, 0, 1, 2]) for _ in range(n)], "kkind": rnd.choice(KEY_KINDS), "vkind": rnd.choice(["float", "float", "int", "datetime"]),
@@ -86,12 +103,16 @@ def check_case(sess, case, ops=None):
         calls += 1
         c = dict(case, op=op); sess.current_case = c
         exp = {lab: C.reduce_rows(op, [vals[r] for r in rows if labs[r] == lab]) for lab in dict.fromkeys(labs[r] for r in rows if labs[r] is not None)}
+        saved_prop = GroupBy.__dict__.get("_max_threads_for_numba")
         try:
             with contextlib.redirect_stdout(io.StringIO()):
                 gb = GroupBy(k, sort=case["sort"])
+                if case.get("threads"): GroupBy._max_threads_for_numba = property(lambda self, t=case["threads"]: t)
                 got = gb.size(mask=m) if op == "size" else getattr(gb, op)(v, mask=m)
         except Exception as ex:
+            GroupBy._max_threads_for_numba = saved_prop
             sess.record("raises", f"GroupBy.{op}", f"aligned inputs must not be rejected / must not fail: {type(ex).__name__}", str(ex)[:200]); continue
+        GroupBy._max_threads_for_numba = saved_prop
         got_labels = [tuple(x) if isinstance(x, tuple) else x for x in got.index]
         exp_labels = [l for l in label_order(kkind, labs, case["sort"]) if l in exp]
         if got_labels != exp_labels:
